@@ -31,6 +31,18 @@ CHECKS = {
         note="Bounded corpora; regex clause exercised with three token names chosen so that fullmatch differs from "
              "match/search; n-gram second-stage vocabulary is covered under C06.",
         tech="functional TLA+ specification (exact integer predicates) + TLC enumeration replayed into preprocessing"),
+    "C06": dict(
+        cat="model_checking", ref="5 (C06), 4.7",
+        text="Ngram.tla (two-stage vocabulary, exact/subgrams, masking, transform, and the '+' merge with the TLC-checked "
+             "lemma 'merge = fit on the concatenation'), Skipgram.tla (pair masses, fitted columns, transform) and "
+             "EdgeList.tla (learned/supplied/joint dictionaries, shape, conservation) define every entry as an exact "
+             "count; TLC enumerates all (training input, transform input, configuration) triples within small bounds and "
+             "each is replayed through fit_transform, fit().transform(X'), transform(X) and (a+b) of the real classes "
+             "and compared label-wise, including column dictionaries, indices and shapes.",
+        note="Bounds: 2-3 tokens, <=2 documents of <=3-4 tokens, transform inputs with one unseen token; edge lists of <=2+2 "
+             "edges over 2(+1 unseen) labels, values {-1,0,2}; Skipgram kernels flat/harmonic (kernel_args are unusable in "
+             "the class). Named preconditions: a non-empty kept vocabulary / at least one n-gram.",
+        tech="functional TLA+ specifications + TLC enumeration of (X, X', cfg) replayed into the code"),
     "C04": dict(
         cat="model_checking", ref="5 (C04), 4.4, 4.5",
         text="CooBuffer.tla (a line-by-line state machine of coo_utils.py) is model-checked exhaustively for small "
